@@ -17,7 +17,7 @@ CfgOf(r) == [lens |-> r.lens, U |-> r.U, L |-> r.L, faultfree |-> r.faultfree]
 Ops(c, o) ==
   << <<"C12_StreamIntegrity", C12_StreamIntegrity(c, o)>>,
      <<"C12_NoSilentLoss", C12_NoSilentLoss(c, o)>>,
-     <<"C12_WireClean", C12_WireClean(c, o)>>,
+     <<"C12_WireClean", C12_WireClean(c, o)>>, <<"C12_NoPanic", C12_NoPanic(o)>>,
      <<"C16_PerReceiveBudget", C16_PerReceiveBudget(c, o)>>,
      <<"C16_RejectHuge", C16_RejectHuge(c, o)>>,
      <<"C16_AcceptSmall", C16_AcceptSmall(c, o)>> >>
